@@ -87,6 +87,7 @@ CLAIMED.update({
 })
 NOT_APPLICABLE = {p: PENDING for p in ["C%02d" % i for i in range(1, 21)]}
 NOT_APPLICABLE.update({
+ "C04": "value-level: whether the saved ANSI file parses back to the same picture depends on SGR state tracking, run-length / cursor-forward substitution and end-of-line trimming over neighbouring run-time cells; the structural clauses in reach (SGR vocabulary agreement, colour-offset involution, self-consistency of the writer's state model) are not violated by any realistic breaking change I could construct or obtain (three independently seeded changes all live in the value-level arithmetic), so claiming the property through them would be a proxy; a rule matching today's text would be a frozen fragment (DESIGN §0.6)",
  "C05": "value-level: equality of pictures after save->load depends on run-time cell values along data-dependent paths of two separate programs (writer, reader); no structural clause is a genuine necessary condition that is not also a frozen-layout match (DESIGN §5)",
  "C06": "value-level: the only structural clause in reach (run length 1..=64) needs a path-sensitive relational invariant across a merge that the interval/zone domain cannot hold; look-ahead cost decisions are pure value semantics (DESIGN §5)",
  "C15": "value-level: writer/reader agreement lives in attribute-delta arithmetic over run-time cells, not in the shape of the code (DESIGN §5)",
